@@ -180,6 +180,24 @@ def regression_scenarios():
         ai_edit(steps, v2, "replace")
         steps.append({"op": "commit", "msg": "staged only", "add": "none"})
 
+    def block_modified_again(n, idxs, who2):
+        # an agent writes a contiguous BLOCK, the block is staged, then lines strictly INSIDE it are rewritten (same
+        # line count, not staged): both ends of the attributed range translate to the commit with the same shift although
+        # an unstaged hunk sits between them — the rewritten version must stay pending and arrive in the next commit
+        # (independently written regression C04-seed3: the range's two ends were translated instead of each line)
+        def build(w, base, steps):
+            block = [w.fresh(f"agent block line {i}", "s1") for i in range(n)]
+            v1 = [base[0]] + block + base[1:]
+            ai_edit(steps, v1, "insert")
+            steps.append({"op": "stage_content", "path": "f1.txt", "lines": [list(l) for l in v1]})
+            v2 = list(v1)
+            for i in idxs:
+                v2[1 + i] = w.fresh(f"agent block line {i} rewritten", who2)
+            steps.append({"op": "human_checkpoint", "paths": ["f1.txt"]})
+            steps.append({"op": "edit", "who": who2, "path": "f1.txt", "kind": "replace", "lines": [list(l) for l in v2]})
+            steps.append({"op": "commit", "msg": "staged only", "add": "none"})
+        return build
+
     def untracked_left_out_twice(w, base, steps):
         # an agent creates a NEW file that stays untracked over two commits (the second round has no agent: its working
         # log holds no AI checkpoint, the file lives in INITIAL only), then everything is committed — the pending lines
@@ -200,6 +218,8 @@ def regression_scenarios():
     mk("unstaged-deletion-above-staged-ai-line", o2_delete)
     mk("unstaged-growing-replacement-above-staged-ai-line", o2_grow)
     mk("staged-ai-line-modified-again-by-the-agent", modified_again)
+    mk("staged-ai-block-inner-line-modified-again-by-the-agent", block_modified_again(5, [2], "s1"))
+    mk("staged-ai-block-inner-lines-modified-again-by-another-session", block_modified_again(6, [1, 3, 4], "s2"))
     return out
 
 
@@ -314,6 +334,28 @@ def sys_tie(res, scs):
         res.broken_tie("correspondence:sys-e2e", {"disagreements": nbad, "of": ncmp, "first": first})
 
 
+REPLACES_ARM_SIG = "staged-ai-line-modified-again-by-another-session-credits-staged-version-to-it"
+REPLACES_ARM_SCENARIO = "staged-ai-block-inner-lines-modified-again-by-another-session"
+
+
+def classify_replaces_arm(sc, sig, detail):
+    """Known finding (the `Replaces` arm of the split, same call site as C03's
+    line-added-by-commit-was-modified-again-unstaged): in the deterministic history REPLACES_ARM_SCENARIO the staged-only
+    commit's note credits the STAGED versions of exactly the rewritten lines (s1's text) to the session that rewrote them
+    in the working tree (s2). Anything else in that history — another line, a line missing altogether, the later commit —
+    keeps its signature."""
+    if sc.get("seed") != REPLACES_ARM_SCENARIO or sig != "note-wrong-lines":
+        return sig
+    missing, extra = detail.get("missing") or {}, detail.get("extra") or {}
+    rewritten = {3, 5, 6}          # 1-based lines of block indices 1, 3, 4 below the first base line
+    if set(missing) == set(extra) and set(missing) <= rewritten and \
+            set(missing.values()) == {S.hash_of("s1")} and set(extra.values()) == {S.hash_of("s2")} and \
+            all((detail.get("line_texts") or {}).get(l, "").startswith("agent block line") and
+                not (detail.get("line_texts") or {}).get(l, "").endswith("rewritten") for l in missing):
+        return REPLACES_ARM_SIG
+    return sig
+
+
 def phase_e2e(res, seeds, threads=16, fixed=()):
     scs = list(fixed) + [gen_scenario(s) for s in seeds]
     for k, sc in enumerate(scs):
@@ -334,6 +376,7 @@ def phase_e2e(res, seeds, threads=16, fixed=()):
         res.tag([f"commits={ncommits}"] + sc["tags"])
         res.sample({"seed": sc["seed"], "steps": [{k: (v if k != "lines" else f"{len(v)} lines") for k, v in st.items()} for st in sc["steps"]][:14]}, cap=2)
         for sig, detail in failures:
+            sig = classify_replaces_arm(sc, sig, detail)
             res.oracle_failure(sig, {"scenario": sc, "detail": detail}, what=f"end-to-end oracle {sig}")
 
 
